@@ -193,6 +193,8 @@ pub fn statement_for(q: &J, jpath: &str, tdef: &str) -> String {
     s += " FROM t";
     match q["join"].as_str().unwrap() {
         // (ON a.x = b.y names the two sides in either order: statements without WHERE write the joined side first)
+        "inner" if tdef == "selfj" => s += &format!(" INNER JOIN t::{} ON t.k = t.k", quote(jpath)),
+        "outer" if tdef == "selfj" => s += &format!(" OUTER JOIN t::{} ON t.k = t.k", quote(jpath)),
         "inner" => s += &format!(" INNER JOIN u::{} ON {}", quote(jpath), if tdef == "numjoin" { "t.v = u.w" } else if is_none(&q["where"]) { "u.k = t.k" } else { "t.k = u.k" }),
         "badfile" => s += &format!(" INNER JOIN u::{} ON t.k = u.k", quote(&format!("{}.does-not-exist", jpath))),
         "dirfile" => s += &format!(" INNER JOIN u::{} ON t.k = u.k", quote(std::path::Path::new(jpath).parent().unwrap().to_str().unwrap())),
